@@ -400,3 +400,109 @@ def rerun_c16(inp):
     if inp["kind"] == "layers":
         return _run_layer_seq([(o, a) for o, a in inp["seq"]])
     return _run_layer_rule_prefix(inp["seq"])
+
+
+# ---------------------------------------------------------------------------------------------- C13: layer rules, diagram rules, entry points
+LAYER_COMPLETE = [
+    ["based_on", "layers_that", "are_named:{S}", v, t, "are_named:{O}", "assert_applies"]
+    for v in ("should", "should_only", "should_not")
+    for t in ("access_layers_that", "be_accessed_by_layers_that", "access_layers_except_layers_that", "be_accessed_by_layers_except_layers_that")
+] + [["based_on", "layers_that", "are_named:{S}", "should_not", "access_any_layer", "assert_applies"]]
+
+
+def _run_layer_chain(chain, defined=("L1", "L2", "L3")):
+    from pytestarch import LayeredArchitecture, LayerRule
+    la = LayeredArchitecture().layer("L1").containing_modules(["r.a"]).layer("L2").containing_modules(["r.b"]).layer("L3").containing_modules(["r.c"])
+    arch = build_arch(TREES["deep"], [("r.a.x", "r.b.x"), ("r.b", "r.c")])
+    rule = LayerRule()
+    try:
+        for c in chain:
+            if c == "based_on":
+                rule.based_on(la)
+            elif c.startswith("are_named:"):
+                a = c.split(":", 1)[1]
+                rule.are_named(a.strip("[]").split(",") if a.startswith("[") else a)
+            elif c == "assert_applies":
+                rule.assert_applies(arch)
+                return "pass", None
+            else:
+                getattr(rule, c)()
+    except AssertionError as e:
+        return "fail", str(e)
+    except Exception as e:
+        return "error", type(e).__name__
+    return "nocall", None
+
+
+def bounded_other_builders(tier, seed):
+    import os
+    from pathlib import Path
+    from pytestarch import DiagramRule, get_evaluable_architecture
+    from .common import temp_project
+    b = Bounded("C13.layer-diagram-entry-point-specifications", "LayerRule: 13 complete chains with an undefined layer name on the subject side, the object side, and inside object batches mixed with "
+                "defined layers (all positions), plus every single deletion / transposition of every complete chain; DiagramRule without file / with a file lacking tags; "
+                "get_evaluable_architecture with every invalid option combination (both exclusion kinds, both external kinds, external patterns while excluded, module_path outside root_path)")
+    for chain in LAYER_COMPLETE:
+        variants = []
+        for S, O, expect_error in (("L1", "L2", False), ("LX", "L2", True), ("L1", "LX", True), ("L1", "[L2,LX]", True), ("L1", "[LX,L2]", True), ("L1", "[L2,LX,L3]", True), ("L1", "[L2,L3]", False)):
+            ch_ = [c.replace("{S}", S).replace("{O}", O) for c in chain]
+            variants.append((ch_, any("LX" in c for c in ch_), "undefined-layer"))
+        base = [c.replace("{S}", "L1").replace("{O}", "L2") for c in chain]
+        for i in range(len(base) - 1):
+            variants.append((base[:i] + base[i + 1:], True, "deletion"))
+        for ch, expect_error, why in variants:
+            kind, detail = _run_layer_chain(ch)
+            b.case()
+            if expect_error and kind in ("pass", "fail"):
+                b.violation("layer-rule-chain", f"{why}: chain {ch} produced a verdict ({kind} {detail!r})", dict(kind="layer-chain", chain=ch, expect_error=True))
+            elif expect_error and detail not in CONFIG_ERRORS:
+                b.violation("layer-rule-chain", f"{why}: chain {ch} raised {detail}", dict(kind="layer-chain", chain=ch, expect_error=True))
+            elif not expect_error and kind == "error":
+                b.violation("layer-rule-chain", f"complete chain {ch} was rejected with {detail}", dict(kind="layer-chain", chain=ch, expect_error=False))
+    # diagram rules
+    arch = build_arch(TREES["deep"], [("r.a.x", "r.b.x")])
+    for mk, why in ((lambda: DiagramRule().with_base_module("r"), "no file"), (lambda: DiagramRule(should_only_rule=False).base_module_included_in_module_names(), "no file")):
+        kind, detail = outcome(mk(), arch)
+        b.case()
+        if kind != "error" or detail != "ImproperlyConfigured":
+            b.violation("diagram-rule", f"DiagramRule with {why}: {kind} {detail}", dict(kind="diagram-nofile"))
+    with temp_project({"d.puml": "[a] --> [b]\n", "e.puml": "@startuml\n[a] --> [b]\n", "f.puml": ""}, "dia") as root:
+        for f in ("d.puml", "e.puml", "f.puml"):
+            kind, detail = outcome(DiagramRule().from_file(Path(os.path.join(root, f))).with_base_module("r"), arch)
+            b.case()
+            if kind != "error" or detail != "PumlParsingError":
+                b.violation("diagram-rule", f"diagram file without start/end tags ({f}): {kind} {detail}", dict(kind="diagram-notags", file=f))
+    # entry points
+    with temp_project({"__init__.py": "", "a/__init__.py": "", "a/m.py": "import os\n", "b/k.py": ""}, "proj") as root:
+        bad = [dict(exclusions=("*x*",), regex_exclusions=(".*x.*",)), dict(regex_exclusions=(".*x.*",)),
+               dict(exclude_external_libraries=False, external_exclusions=("os",), regex_external_exclusions=("os",)),
+               dict(external_exclusions=("os",)), dict(regex_external_exclusions=("os",)), dict(exclude_external_libraries=True, external_exclusions=("os*",))]
+        for kw in bad:
+            b.case()
+            try:
+                get_evaluable_architecture(root, root, **kw)
+                b.violation("entry-point", f"invalid option combination {kw} was accepted", dict(kind="entry", kw={k: list(v) if isinstance(v, tuple) else v for k, v in kw.items()}))
+            except Exception as e:
+                if type(e).__name__ != "ImproperlyConfigured":
+                    b.violation("entry-point", f"invalid option combination {kw} raised {type(e).__name__}", dict(kind="entry", kw={k: list(v) if isinstance(v, tuple) else v for k, v in kw.items()}))
+        for mp in (os.path.dirname(root), os.path.join(os.path.dirname(root), "elsewhere"), "/"):
+            b.case()
+            try:
+                get_evaluable_architecture(root, mp)
+                b.violation("entry-point", f"module_path {mp} outside root_path was accepted", dict(kind="entry-path", mp=mp))
+            except (ValueError, ) as e:
+                pass
+            except Exception as e:
+                b.violation("entry-point", f"module_path outside root_path raised {type(e).__name__}", dict(kind="entry-path", mp=mp))
+    b.samples.append(dict(chain=["based_on", "layers_that", "are_named:L1", "should", "access_layers_that", "are_named:[L2,LX]", "assert_applies"], expected="lookup error, no verdict"))
+    return b.result()
+
+
+def rerun_other_builders(inp):
+    if inp["kind"] == "layer-chain":
+        kind, detail = _run_layer_chain(inp["chain"])
+        ok = (kind == "error" and detail in CONFIG_ERRORS) if inp["expect_error"] else kind != "error"
+        return ok, f"chain {inp['chain']}: {kind} {detail!r}"
+    r = bounded_other_builders("quick", 0)
+    v = [x for x in r["violations"] if x["input"].get("kind") == inp["kind"]]
+    return not v, (v[0]["detail"] if v else "rejected with a configuration error")
